@@ -384,8 +384,10 @@ class LoadMixin(AbstractLoader, BaseLoadHook):
 
                     elif NoneType in base_types and len(base_types) == 2:
                         # Special case for Optional[x], which is actually Union[x, None]
+                        # `Union[None, x]` lists `NoneType` first
                         return OptionalParser(
-                            base_cls, extras, base_types[0],
+                            base_cls, extras,
+                            base_types[1] if base_types[0] is NoneType else base_types[0],
                             cls.get_parser_for_annotation
                         )
 
